@@ -21,8 +21,8 @@ func (s *sampler) intn(lo, hi int, l string) int { return lo + U(s.t, hi-lo+1, l
 
 // BoundaryRunes sit at the edges of the encoding and of the tables parsers special-case:
 // the last Basic Latin rune and the first one behind it, the ends of the 2/3/4-byte ranges,
-// the runes around the surrogate gap, NUL.
-var BoundaryRunes = []rune{0x7f, 0x80, 0x81, 0xff, 0x100, 0x7ff, 0x800, 0xd7ff, 0xe000, 0xfffe, 0xffff, 0x10000, 0x10ffff, 0}
+// the runes around the surrogate gap, NUL, the byte order mark.
+var BoundaryRunes = []rune{0x7f, 0x80, 0x81, 0xff, 0x100, 0x7ff, 0x800, 0xd7ff, 0xe000, 0xfffe, 0xffff, 0x10000, 0x10ffff, 0, 0xfeff}
 
 func (s *sampler) rune_() rune {
 	if U(s.t, 12, "boundaryrune") == 0 {
@@ -254,6 +254,10 @@ func SampleInput(t *rapid.T, g *Grammar, entry string, alphabet []rune, maxLen i
 		}
 	default:
 		out = []byte(Pick(t, []string{"", "\n", "\n\n", "a", "é", "日😀", "\na", "a\n", " ", "aaaaaaaaaaaa", "abcabcabc", "0", "\t"}, "boundary"))
+	}
+	if U(t, 40, "leadingbom") == 0 {
+		// a byte order mark is a rune like any other, also as the first one of the input
+		out = append([]byte("\ufeff"), out...)
 	}
 	if len(out) > maxLen {
 		out = out[:maxLen]
